@@ -11,7 +11,7 @@ import FastorModel.Props.C05
 
   The hypotheses `hnd`/`hd` ("the stored positions are pairwise distinct and lane j is stored at dpos j") are
   discharged for the 1-D classes (`noalias_snapshot_1d`) and the n-D classes of every rank (`noalias_snapshot_nd`, via
-  the odometer enumeration of Proofs/Odometer.lean); `row_lanes`/`row_nodup` (Props/C05) give them for the 2-D classes.
+  the odometer enumeration of Proofs/Odometer.lean) and the 2-D classes (`noalias_snapshot_2d`).
 
   * `noalias_snapshot`         guarded assignment = evaluate the WHOLE right-hand side on the original contents,
                                then update: every selected element is `op(old, rhs(old) j)`, the rest is unchanged;
@@ -124,6 +124,44 @@ theorem noalias_snapshot_1d (e : Nat) (he : e ≤ 64) (vea : Bool) (a : Ax) (hn 
     obtain ⟨k, hk, hkp⟩ := hin
     exact hp k hk (by omega)
 
+/-- **noalias_snapshot, 2-D views** (dynamic and fixed) -/
+theorem noalias_snapshot_2d (e : Nat) (he : e ≤ 64) (vea : Bool) (N : Nat) (a0 a1 : Ax) (hn : a1.ext < 2 ^ 64)
+    (hs0 : 0 < a0.step) (hs1 : 0 < a1.step) (hin : ∀ k < a1.ext, k * a1.step + a1.first < N) (he1 : 0 < a1.ext)
+    (op : WOp) (r : Rhs α) (m : Nat → α) :
+    let its := rowIters (2 ^ e) vea N a0 a1
+    let pos := fun i k => (a0.step * i + a0.first) * N + (k * a1.step + a1.first)
+    let m' := guardedAssign op its its (fun j => pos (j / a1.ext) (j % a1.ext)) r m
+    (∀ i < a0.ext, ∀ k < a1.ext, m' (pos i k) = op.ap (m (pos i k)) (r.val m (i * a1.ext + k))) ∧
+    (∀ p, (∀ i < a0.ext, ∀ k < a1.ext, p ≠ pos i k) → m' p = m p) := by
+  intro its pos m'
+  have hl := C05.row_lanes e he vea N a0 a1 hn
+  have hnd : ((lanesOf its).map (·.1)).Nodup := by rw [hl]; exact C05.row_nodup N a0 a1 hs0 hs1 hin
+  have hd : ∀ l ∈ lanesOf its, (fun j => pos (j / a1.ext) (j % a1.ext)) l.2 = l.1 := by
+    intro l hl'
+    rw [hl] at hl'
+    obtain ⟨i, _, hl''⟩ := List.mem_flatMap.1 hl'
+    obtain ⟨k, hk, rfl⟩ := List.mem_map.1 hl''
+    have hk' := List.mem_range.1 hk
+    show pos ((i * a1.ext + k) / a1.ext) ((i * a1.ext + k) % a1.ext) = _
+    have h1 : (i * a1.ext + k) / a1.ext = i := by
+      rw [Nat.mul_comm, Nat.mul_add_div he1, Nat.div_eq_of_lt hk', Nat.add_zero]
+    have h2 : (i * a1.ext + k) % a1.ext = k := by
+      rw [Nat.mul_comm, Nat.mul_add_mod, Nat.mod_eq_of_lt hk']
+    rw [h1, h2]
+  have h := noalias_snapshot op its its (fun j => pos (j / a1.ext) (j % a1.ext)) r m hnd hnd hd (fun _ h => h)
+  refine ⟨?_, ?_⟩
+  · intro i hi k hk
+    have hmem : (pos i k, i * a1.ext + k) ∈ lanesOf its := by
+      rw [hl]
+      exact List.mem_flatMap.2 ⟨i, List.mem_range.2 hi, List.mem_map.2 ⟨k, List.mem_range.2 hk, rfl⟩⟩
+    exact h.1 _ hmem
+  · intro p hp
+    apply h.2
+    rw [hl]
+    intro hmem
+    simp only [List.map_flatMap, List.mem_flatMap, List.map_map, List.mem_map, List.mem_range, Function.comp] at hmem
+    obtain ⟨i, hi, k, hk, hkp⟩ := hmem
+    exact hp i hi k hk hkp.symm
 /-- **noalias_snapshot, n-D views of every rank** (the odometer classes), `dpos` being any function that maps the flat
     index of a multi-index of the slice to its position (the copy's view is read back through the same index map) -/
 theorem noalias_snapshot_nd (V : Nat) (hV : 0 < V) (dims : List Nat) (axs : List Ax) (hne : axs ≠ [])
